@@ -270,6 +270,23 @@ func c02Tasks(tier string) []Task {
 			tasks = append(tasks, seqTasks("C02", []seqLevel{lv})...)
 		}
 	}
+	// reopening with another DataFileSize and merging afterwards (the merge output then needs more / fewer files
+	// than its input): deeper than the pair levels, restricted to the pairs that differ in DataFileSize
+	{
+		fs := func(n int64) Cfg { c := defaultCfg; c.FileSize = n; return c }
+		alpha := func(c Cfg) []Op {
+			return []Op{{K: "put", Key: "a", VC: "S"}, {K: "put", Key: "b", VC: "S"}, {K: "put", Key: "a", VC: "L"}, {K: "del", Key: "b"},
+				{K: "merge"}, {K: "merge", Arg: 1}, {K: "xrestart"}}
+		}
+		for _, p := range [][2]Cfg{{fs(200), fs(64)}, {fs(130), fs(64)}, {fs(200), fs(130)}, {fs(64), fs(200)}} {
+			run := makeRunC02(p[0], p[1], []Cfg{p[0], p[1]})
+			lv := seqLevel{Name: "filesize-change-d5", Cfgs: []Cfg{p[0]}, Keys: keysAB, Alpha: alpha, Depth: 5, Dev: 5, Run: run}
+			for _, t := range seqTasks("C02", []seqLevel{lv}) {
+				t.Name = fmt.Sprintf("%s reader=%s", t.Name, p[1])
+				tasks = append(tasks, t)
+			}
+		}
+	}
 	if tier == "quick" {
 		addLevel("pairs-d2", allPairs, 2, 2)
 		addLevel("ring-d3b2", diagPairs, 3, 2)
